@@ -725,22 +725,36 @@ func equivalentCheckConfigInV2(
 	if err != nil {
 		return nil, err
 	}
+	// A v2 file can only name the rules and categories that exist in v2.
+	v2Rules, err := client.AllRules(ctx, ruleType, bufconfig.FileVersionV2)
+	if err != nil {
+		return nil, err
+	}
+	replacements := getIDToReplacementIDsInV2(allRules, v2Rules, deprecations)
+	v2RuleIDs := slicesext.ToStructMap(slicesext.Map(v2Rules, bufcheck.Rule.ID))
 	expectedRules = slicesext.Filter(expectedRules, func(rule bufcheck.Rule) bool { return !rule.Deprecated() })
-	expectedIDs := slicesext.Map(
-		expectedRules,
-		func(rule bufcheck.Rule) string {
-			return rule.ID()
-		},
-	)
+	expectedIDs := make([]string, 0, len(expectedRules))
+	for _, expectedRule := range expectedRules {
+		if _, ok := v2RuleIDs[expectedRule.ID()]; !ok {
+			logger.Warn(fmt.Sprintf(
+				"The %s rule %s does not exist in %s and is not migrated.",
+				ruleType.String(),
+				expectedRule.ID(),
+				bufconfig.FileVersionV2.String(),
+			))
+			continue
+		}
+		expectedIDs = append(expectedIDs, expectedRule.ID())
+	}
 
 	// First create a check config with the exact same UseIDsAndCategories. This
 	// is a simple translation. It may or may not be equivalent to the given check config.
 	simplyTranslatedCheckConfig, err := bufconfig.NewEnabledCheckConfig(
 		bufconfig.FileVersionV2,
-		undeprecateSlice(checkConfig.UseIDsAndCategories(), deprecations),
-		undeprecateSlice(checkConfig.ExceptIDsAndCategories(), deprecations),
+		undeprecateSlice(checkConfig.UseIDsAndCategories(), replacements),
+		undeprecateSlice(checkConfig.ExceptIDsAndCategories(), replacements),
 		checkConfig.IgnorePaths(),
-		undeprecateMap(checkConfig.IgnoreIDOrCategoryToPaths(), deprecations),
+		undeprecateMap(checkConfig.IgnoreIDOrCategoryToPaths(), replacements),
 		checkConfig.DisableBuiltin(),
 	)
 	if err != nil {
@@ -785,6 +799,53 @@ func equivalentCheckConfigInV2(
 		simplyTranslatedCheckConfig.IgnoreIDOrCategoryToPaths(),
 		simplyTranslatedCheckConfig.DisableBuiltin(),
 	)
+}
+
+// getIDToReplacementIDsInV2 returns a map from the IDs of the given rules and of their
+// categories that cannot be used as they are in a v2 file, to the IDs to use in their place.
+//
+//   - A deprecated rule is replaced by its replacements, per the given deprecations.
+//   - A rule that does not exist in v2 has no replacement.
+//   - A category that does not exist in v2 is replaced by its rules.
+//
+// All replacement IDs are IDs of rules that exist in v2.
+func getIDToReplacementIDsInV2(
+	rules []bufcheck.Rule,
+	v2Rules []bufcheck.Rule,
+	deprecations map[string][]string,
+) map[string][]string {
+	existsInV2 := make(map[string]struct{})
+	for _, v2Rule := range v2Rules {
+		existsInV2[v2Rule.ID()] = struct{}{}
+		for _, v2Category := range v2Rule.Categories() {
+			existsInV2[v2Category.ID()] = struct{}{}
+		}
+	}
+	filterExistsInV2 := func(ids []string) []string {
+		return slicesext.Filter(ids, func(id string) bool {
+			_, ok := existsInV2[id]
+			return ok
+		})
+	}
+	idToReplacementIDs := make(map[string][]string)
+	for _, rule := range rules {
+		ruleIDs := []string{rule.ID()}
+		if replacementIDs, ok := deprecations[rule.ID()]; ok {
+			ruleIDs = replacementIDs
+			idToReplacementIDs[rule.ID()] = filterExistsInV2(ruleIDs)
+		} else if _, ok := existsInV2[rule.ID()]; !ok {
+			idToReplacementIDs[rule.ID()] = []string{}
+		}
+		for _, category := range rule.Categories() {
+			if _, ok := existsInV2[category.ID()]; !ok {
+				idToReplacementIDs[category.ID()] = append(
+					idToReplacementIDs[category.ID()],
+					filterExistsInV2(ruleIDs)...,
+				)
+			}
+		}
+	}
+	return idToReplacementIDs
 }
 
 // undeprecateSlice transforms the given slice of IDs so that any deprecated
